@@ -1,6 +1,87 @@
 """C13 literals denote exactly what they spell - structural clauses on the literal path (tokenizer number/escape scanners, parser narrowing)."""
 import re
-import lib, common
+import lib, common, symex, semtables
+
+TK = "rscel::compiler::string_tokenizer::StringTokenizer::<'l>::"
+# the CEL escape table (langdef: string and bytes literals); value = code unit the escape denotes, or the helper it reads
+ESCAPES = {"a": 7, "b": 8, "f": 12, "n": 10, "r": 13, "t": 9, "v": 11, "\\": 92, "'": 39, '"': 34, "x": "hex(2)", "X": "hex(2)"}
+STRING_ONLY = {"u": "hex(4)", "U": "hex(8)"}
+
+
+class ScanPolicy(semtables.LogicPolicy):
+    """scanner calls yield fresh unknown characters; the root's own loop is cut after one iteration (the state at the cut shows what
+    one step of the literal loop appended); error construction ends a path"""
+    max_paths = 40000
+
+    def __init__(self, root, inner_limit=4):
+        self.root = root
+        self.done = []
+        self.errors = []
+        self.inner_limit = inner_limit
+
+    def limit_for(self, body, blk):
+        return 1 if body.path == TK + self.root else self.inner_limit
+
+    def abandoned(self, st, body, blk):
+        if body.path == TK + self.root:
+            self.done.append(st)
+
+    def inline(self, path, body):
+        return False
+
+    def stub(self, interp, st, path, c, args, t, caller):
+        m = re.search(r"string_scanner::StringScanner::<'l>::(next|peek|location)$", path)
+        if m:
+            n = sum(1 for e in st.trace if e[0] == "scan")
+            st.event("scan", n, m.group(1))
+            if m.group(1) == "location":
+                return [(st, symex.U("loc#%d" % n))]
+            return [(st, symex.U("%s#%d" % (m.group(1), n), "std::option::Option<char>"))]
+        if path.endswith("StringTokenizer::<'l>::extract_hex_val"):
+            st.event("hex", symex.render(args[1]))
+            return [(st, symex.ok(("call", "hex", (args[1],), "char")))]
+        if path.endswith("syntax_error::SyntaxError::from_location"):
+            st.event("error")
+            self.errors.append(st)
+            return []
+        return None
+
+
+def escape_table(F, root, extra_args):
+    """{escape character (or class) : what one loop step appends} for a literal scanner"""
+    b = F.body(TK + root)
+    pol = ScanPolicy(root)
+    it = symex.Interp(F, pol)
+    names = {v["name"]: v["place"]["l"] for v in b.d["dbg"] if "p" not in v["place"]}
+    it.run(b, [symex.U("self"), symex.U("starting", "char")] + extra_args)
+    tab = {}
+    for st in pol.done + pol.errors:
+        conds = [(c[0], c[1], c[2]) for c in st.cond if c[0] in ("eq", "ne")]
+        # only the steps that follow a backslash
+        if ("ne", "Eq(next#0.Some.0, 92)", (0,)) not in [(k, e, tuple(v) if isinstance(v, (list, tuple)) else v) for k, e, v in conds]:
+            continue
+        key = None
+        for k, e, v in conds:
+            if e == "next#1.Some.0" and k == "eq":
+                key = chr(v)
+            elif e == "next#1.Some.0" and k == "ne":
+                key = "<other>"
+        rng = [(e, v) for k, e, v in conds if re.match(r"^(Le|Ge|Lt|Gt)\(", e) and "next#1.Some.0" in e]
+        if key == "<other>" and rng:
+            lo = [e for e, v in rng]
+            key = "<other>" + "|" + ";".join("%s=%s" % (e, 1 if isinstance(v, (list, tuple)) else v) for e, v in rng)
+        if key is None:
+            continue
+        if st in pol.errors:
+            act = "error"
+        else:
+            fr = st.frames[min(st.frames)]
+            w = symex.render(fr.get(names.get("working", -1), symex.U("?")))
+            m = re.match(r"^(?:String::push|Vec::push)!\(\[\], (.*)\)$", w) or re.match(r"^\[(.*)\]$", w)
+            act = m.group(1) if m else w
+            act = re.sub(r"^as u8\((.*)\)$", r"\1", act)
+        tab.setdefault(key, set()).add(act)
+    return tab
 
 
 def run(chk, tier):
@@ -45,8 +126,75 @@ def run(chk, tier):
         chk.ok("R13.3", "extract_hex_val shared", {"string": hs, "bytes": hb})
     else:
         chk.bad("R13.3", "extract_hex_val shared", "string (%d) and bytes (%d) scanners no longer share the hex escape helper" % (hs, hb), s.file)
+    # ---------------- R13.4 escape tables (one step of the literal loop after a backslash, by symbolic execution)
+    chk.rule("R13.4", "escape tables of string and bytes literals = the CEL table (\\a \\b \\f \\n \\r \\t \\v \\\\ \\' \\\" \\xHH, strings also \\uHHHH \\UHHHHHHHH, three octal digits); any other escape is an error, not a value")
+    chk.rule("R13.5", "extract_hex_val yields a character only after exactly `len` hex digits; fewer digits, a non-hex character or an invalid code point are errors")
+    chk.rule("R13.6", "the number scanner accepts exactly decimal digits (and hexadecimal digits after 0x); hexadecimal literals are integers")
+    tabs = {}
+    for root, extra in (("parse_string_literal", [symex.I(0), symex.I(0)]), ("parse_bytes_literal", [])):
+        try:
+            tab = escape_table(F, root, extra)
+        except symex.TooManyPaths as e_:
+            chk.bad("R13.4", root + "|extract", "symbolic execution of %s did not finish: %s" % (root, e_), "rscel/src/compiler/string_tokenizer.rs")
+            continue
+        tabs[root] = tab
+        want = dict(ESCAPES)
+        if root == "parse_string_literal":
+            want.update(STRING_ONLY)
+        for ch, val in sorted(want.items()):
+            got = tab.get(ch)
+            exp = {str(val)}
+            if got == exp:
+                chk.ok("R13.4", "%s|\\%s" % (root, ch), sorted(got))
+            else:
+                chk.bad("R13.4", "%s|\\%s" % (root, ch), "escape \\%s appends %s, the CEL table says %s" % (ch, sorted(got) if got else "nothing (not handled)", sorted(exp)), "rscel/src/compiler/string_tokenizer.rs (%s)" % root)
+        for ch, got in sorted(tab.items()):
+            if ch in want:
+                continue
+            if ch.startswith("<other>"):
+                # octal digits are handled under a range test; everything else must be rejected
+                vals = set(got)
+                selfpush = [g for g in vals if "next#1.Some.0" in g and not g.startswith("error")]
+                if selfpush and "Le(next#1.Some.0" not in ch and "=1" not in ch.split("|", 1)[-1].split(";")[-1]:
+                    chk.bad("R13.4", "%s|unknown escape" % root, "an escape character outside the table is accepted and denotes itself (`'a\\qb'` spells \"aqb\"): malformed escapes must be rejected with a syntax error" , "rscel/src/compiler/string_tokenizer.rs (%s)" % root)
+                elif selfpush:
+                    chk.bad("R13.4", "%s|unknown escape" % root, "an escape character outside the table is accepted and denotes itself (`'a\\qb'` spells \"aqb\"): malformed escapes must be rejected with a syntax error", "rscel/src/compiler/string_tokenizer.rs (%s)" % root)
+                else:
+                    chk.ok("R13.4", "%s|%s" % (root, ch[:60]), sorted(vals)[:3])
+            else:
+                chk.bad("R13.4", "%s|\\%s" % (root, ch), "escape \\%s is not in the CEL table but appends %s" % (ch, sorted(got)), "rscel/src/compiler/string_tokenizer.rs (%s)" % root)
+    if len(tabs) == 2:
+        shared = set(ESCAPES)
+        diff = [c_ for c_ in shared if tabs["parse_string_literal"].get(c_) != tabs["parse_bytes_literal"].get(c_)]
+        if diff:
+            chk.bad("R13.3", "string / bytes tables agree", "string and bytes literals disagree on the escapes %s" % diff, "rscel/src/compiler/string_tokenizer.rs")
+        else:
+            chk.ok("R13.3", "string / bytes tables agree", sorted(shared))
+    # ---------------- R13.5 extract_hex_val for len = 2
+    hb = F.body(TK + "extract_hex_val")
+
+    class HexPolicy(ScanPolicy):
+        def limit_for(self, body, blk):
+            return 6
+
+        def abandoned(self, st, body, blk):
+            pass
+    pol = HexPolicy("extract_hex_val")
+    it = symex.Interp(F, pol)
+    outs = it.run(hb, [symex.U("self"), symex.I(2)])
+    oks = []
+    for st, r in outs:
+        scans = [e for e in st.trace if e[0] == "scan" and e[2] == "next"]
+        digits = [(c[1], c[2]) for c in st.cond if c[0] in ("eq", "ne") and "is_digit" in c[1]]
+        if r[0] == "adt" and r[2] == "Ok":
+            oks.append((len(scans), digits, [c for c in st.cond if c[0] == "variant" and "from_u32" in str(c[3])]))
+    good = bool(oks) and all(n == 2 and len(d) == 2 and all((v == 1 or v == (0,) or list(v) == [0]) if not isinstance(v, int) else v == 1 for _, v in d) and len(fu) == 1 and fu[0][2] == "Some" for n, d, fu in oks)
+    if good:
+        chk.ok("R13.5", "extract_hex_val(2)", {"ok_paths": len(oks), "reads": 2, "each digit tested": True, "code point validated": True})
+    else:
+        chk.bad("R13.5", "extract_hex_val(2)", "extract_hex_val(2) can succeed after reading %s characters with digit tests %s: a truncated or malformed \\x / \\u escape must be a syntax error" % (sorted(set(n for n, _, _ in oks)), [d for _, d, _ in oks][:2]), hb.file)
     return chk.finish(
         "Cast and callee rules on the literal path: parser narrowing of IntLit, the number scanner's conversion primitives, code-point validation, "
-        "shared escape helper. Decides only these clauses; the escape tables themselves (which character each escape denotes, the hex digit class) "
-        "are NOT decided - that needs the syntax-level table extractor that was not built.",
-        ["rustc MIR", "std from_str_radix / parse / char::from_u32 contracts"], ["default features"], technique="MIR cast/callee rules over the literal path")
+        "shared escape helper; escape tables of both literal scanners extracted by symbolic execution of one loop step after a backslash "
+        "and compared with the CEL table; decision table of extract_hex_val.",
+        ["rustc MIR", "std from_str_radix / parse / char::from_u32 contracts"], ["default features"], technique="MIR cast/callee rules + symbolic execution of the literal scanners into escape tables")
